@@ -159,8 +159,11 @@ def generate(g, tier):
         else:
             lines += [f'VAR {k} {x}' for k, x in vals[0].items()] + [f'REPEAT {len(vals)}', f'    $STRING {text}', f'    VAR {k0} {k0}+7']
             env = dict(vals[0])
+            loop_vals = []
             for _k in range(len(vals)):
-                exp.append('STRING ' + ev(env)); env[k0] += 7
+                loop_vals.append(ev(env)); env[k0] += 7
+            if any(x is None for x in loop_vals): continue        # a later pass would leave the exact-arithmetic domain: not this case
+            exp += ['STRING ' + x for x in loop_vals]
         cases.append(dict(op='compile', src=dict(text='\n'.join(lines)), meta=dict(family='reeval', form='outs', expout=exp)))
     # ... and "current" means current at the moment THAT argument is evaluated: a VAR (or $STRING, DELAY ...) written with a group of
     # arguments defines / reads line by line — a later line of the group sees what an earlier line of the same group just defined
